@@ -187,6 +187,24 @@ Definition fmt_f (f : float) : string :=
       ((if s then "-" else "") ++ show_nonneg (scaled / 1000000) ++ "." ++ pad6 (show_nonneg (scaled mod 1000000)))%string
   end.
 
+(* literals handed over by the harness *)
+Definition bytes_to_string (l : list Z) : string :=
+  fold_right (fun b acc => String (ascii_of_nat (Z.to_nat b)) acc) EmptyString l.
+
+(* IEEE-754 binary64 bit pattern -> primitive float (exact) *)
+Definition float_of_bits (bits : Z) : float :=
+  let sign := Z.testbit bits 63 in
+  let e := Z.land (Z.shiftr bits 52) 2047 in
+  let m := Z.land bits (2 ^ 52 - 1) in
+  let mag :=
+    if e =? 2047 then (if m =? 0 then PrimFloat.infinity else PrimFloat.nan)
+    else if e =? 0 then
+      (if m =? 0 then PrimFloat.zero
+       else Z.ldexp (PrimFloat.of_uint63 (Uint63.of_Z m)) (-1074))
+    else Z.ldexp (PrimFloat.of_uint63 (Uint63.of_Z (m + 2 ^ 52))) (e - 1075) in
+  if sign then PrimFloat.opp mag else mag.
+
+
 (* value equality used by the correspondence (floats by IEEE bits via Prim2SF) *)
 Definition float_bits_eqb (a b : float) : bool :=
   match Prim2SF a, Prim2SF b with
